@@ -119,10 +119,6 @@ Proof.
         destruct (builtin_index n builtins_map) as [idx|].
         2: { inversion H; subst. repeat split; auto; try (intros; discriminate). }
         inversion H; subst. repeat split; auto.
-        intros m sym Hl Hb. cbn [with_store t_store t_disabled] in *. simpl in Hl.
-        destruct (String.eqb m n) eqn:E.
-        -- apply String.eqb_eq in E. subst. exact Em.
-        -- eapply Hinv; eassumption.
       * destruct (resolve (u :: r') n) as [rest' rr] eqn:Er.
         destruct Hinv as [Hn Hrest].
         destruct (IH _ _ Hrest eq_refl) as [Hi [Hd [Hlen Hres]]].
